@@ -2,8 +2,11 @@ package harness
 
 import (
 	"fmt"
+	"os"
+	"os/exec"
 	"reflect"
 	"strings"
+	"syscall"
 	"testing"
 	"time"
 
@@ -336,6 +339,12 @@ func c13Constructed(m *Model, v *Verdict) {
 			det["rfc-decoder"] = dec
 			v.Violate("failing-input", "c13:constructed:rfc-decode:"+name, "an independent decoder of the RFC ASN.1 type does not read the values of a message the library constructed (local time zone not UTC)", det)
 		}
+		if name == "ASReq" || name == "TGSReq" {
+			if sh := m.Ask(fmt.Sprintf("cl.shape %s %s", name, X(b))); sh != "ok" {
+				det["rfc-shape"] = sh
+				v.Violate("failing-input", "c13:constructed:shape:"+name, "a request the library constructed transmits an OPTIONAL list empty where RFC 4120 says it is left out: "+sh, det)
+			}
+		}
 	}
 	e := messages.NewKRBError(sname, "EXAMPLE.COM", 6, "text")
 	check("KRBError", &e)
@@ -347,8 +356,95 @@ func c13Constructed(m *Model, v *Verdict) {
 			check("ASReq", &r)
 		}
 	}
+	// requests built under either setting of noaddresses (with it off the request lists the host's addresses, and
+	// has no addresses element at all on a host that has none), and with extra_addresses
+	for _, extra := range []string{" noaddresses = true\n", " noaddresses = false\n", " noaddresses = false\n extra_addresses = 10.1.2.3\n"} {
+		cfg, err := config.NewFromString("[libdefaults]\n default_realm = EXAMPLE.COM\n" + extra)
+		if err != nil {
+			continue
+		}
+		if r, err := messages.NewASReqForTGT("EXAMPLE.COM", cfg, cname); err == nil {
+			check("ASReq", &r)
+		}
+		tgt := messages.Ticket{TktVNO: 5, Realm: "EXAMPLE.COM", SName: types.PrincipalName{NameType: 2, NameString: []string{"krbtgt", "EXAMPLE.COM"}}, EncPart: types.EncryptedData{EType: 18, KVNO: 1, Cipher: []byte("tgt")}}
+		if r, err := messages.NewTGSReq(cname, "EXAMPLE.COM", cfg, tgt, types.EncryptionKey{KeyType: 18, KeyValue: make([]byte, 32)}, sname, false); err == nil {
+			check("TGSReq", &r)
+		}
+	}
+	c13NoNetRequests(m, v)
 	kp := messages.NewKRBPriv(messages.EncKrbPrivPart{UserData: []byte{1}, Timestamp: time.Now(), SAddress: types.HostAddress{AddrType: 2, Address: []byte{1, 2, 3, 4}}})
 	_ = kp
+}
+
+// c13NoNetRequests: the requests of a host without any address of its own. The child process runs in a new, empty
+// network namespace (no interface is up there) and prints each constructed request; the parent has the
+// independent decoder read them. Where the kernel does not allow a new namespace the case is noted and left out.
+func TestC13NoNet(t *testing.T) {
+	if os.Getenv("VERIF_C13_NONET") == "" {
+		t.Skip("runs as a child of TestC13")
+	}
+	byName := map[string]asn1Type{}
+	for _, ty := range asn1Types() {
+		byName[ty.name] = ty
+	}
+	ha, _ := types.LocalHostAddresses()
+	fmt.Printf("C13NONET-ADDRS\t%d\n", len(ha))
+	cname := types.PrincipalName{NameType: 1, NameString: []string{"user"}}
+	sname := types.PrincipalName{NameType: 2, NameString: []string{"HTTP", "host.example.com"}}
+	emit := func(name string, val interface{}) {
+		ty := byName[name]
+		b, err := ty.marshal(val)
+		if err != nil {
+			fmt.Printf("C13NONET-ERR\t%s\t%v\n", name, err)
+			return
+		}
+		fmt.Printf("C13NONET\t%s\t%s\t%s\n", name, X(b), ty.render(val))
+	}
+	cfg, err := config.NewFromString("[libdefaults]\n default_realm = EXAMPLE.COM\n noaddresses = false\n")
+	if err != nil {
+		return
+	}
+	if r, err := messages.NewASReqForTGT("EXAMPLE.COM", cfg, cname); err == nil {
+		emit("ASReq", &r)
+	}
+	tgt := messages.Ticket{TktVNO: 5, Realm: "EXAMPLE.COM", SName: types.PrincipalName{NameType: 2, NameString: []string{"krbtgt", "EXAMPLE.COM"}}, EncPart: types.EncryptedData{EType: 18, KVNO: 1, Cipher: []byte("tgt")}}
+	if r, err := messages.NewTGSReq(cname, "EXAMPLE.COM", cfg, tgt, types.EncryptionKey{KeyType: 18, KeyValue: make([]byte, 32)}, sname, false); err == nil {
+		emit("TGSReq", &r)
+	}
+}
+
+func c13NoNetRequests(m *Model, v *Verdict) {
+	cmd := exec.Command(os.Args[0], "-test.run", "^TestC13NoNet$", "-test.count=1")
+	cmd.Env = append(os.Environ(), "VERIF_C13_NONET=1")
+	cmd.SysProcAttr = &syscall.SysProcAttr{Cloneflags: syscall.CLONE_NEWNET}
+	out, err := cmd.Output()
+	if err != nil {
+		v.Note("requests of a host without addresses: not run (no new network namespace here: " + cut(err.Error(), 80) + ")")
+		return
+	}
+	n := 0
+	for _, line := range strings.Split(string(out), "\n") {
+		f := strings.Split(line, "\t")
+		switch {
+		case f[0] == "C13NONET-ADDRS" && len(f) == 2 && f[1] != "0":
+			v.Note("requests of a host without addresses: the new network namespace has addresses (" + f[1] + "), not run")
+			return
+		case f[0] == "C13NONET-ERR" && len(f) == 3:
+			v.Violate("failing-input", "c13:constructed:marshal:"+f[1], "Marshal of a request constructed on a host without addresses failed: "+f[2], nil)
+		case f[0] == "C13NONET" && len(f) == 4:
+			n++
+			v.Case("constructed-no-addresses/"+f[1], f[1]+" from its constructor, noaddresses = false, host without addresses")
+			if dec := m.Ask(fmt.Sprintf("asn1.dec %s %s", f[1], f[2])); dec != "ok "+f[3] {
+				v.Violate("failing-input", "c13:constructed:rfc-decode:"+f[1], "an independent decoder of the RFC ASN.1 type does not read the values of a request the library constructed on a host without addresses (noaddresses = false)", map[string]string{"type": f[1], "value": f[3], "bytes": f[2], "rfc-decoder": dec})
+			}
+			if sh := m.Ask(fmt.Sprintf("cl.shape %s %s", f[1], f[2])); sh != "ok" {
+				v.Violate("failing-input", "c13:constructed:shape:"+f[1], "a request the library constructed on a host without addresses (noaddresses = false) transmits an OPTIONAL list empty where RFC 4120 says it is left out: "+sh, map[string]string{"type": f[1], "value": f[3], "bytes": f[2], "rfc-shape": sh})
+			}
+		}
+	}
+	if n == 0 {
+		v.Note("requests of a host without addresses: the child printed nothing")
+	}
 }
 
 func optPattern(text string) string {
